@@ -192,6 +192,36 @@ int main(int argc, char **argv){
         VALUE("getLabels_", rows, th, "vs-seq", uiv_eq(l1, l2));
         DelMatrix(&a); DelMatrix(&cen); DelUIVector(&l1); DelUIVector(&l2);
       }
+      /* exact distance ties: grid-valued data, duplicated centroids and points on a bisector - the label must be the
+         one the sequential definition gives (first nearest centroid), for every thread count */
+      if(rows >= 2 && (th <= 4 || th == rows || th == maxth)){
+        matrix *a, *cen; uivector *l1, *l2;
+        NewMatrix(&a, rows, 2); for(size_t i = 0; i < rows; i++){ a->data[i][0] = (double)(i % 5); a->data[i][1] = (double)((i / 5) % 3); }
+        NewMatrix(&cen, 4, 2); cen->data[0][0] = 0; cen->data[0][1] = 0; cen->data[1][0] = 4; cen->data[1][1] = 0; cen->data[2][0] = 4; cen->data[2][1] = 0; cen->data[3][0] = 0; cen->data[3][1] = 2;
+        NewUIVector(&l1, rows); NewUIVector(&l2, rows); for(size_t i = 0; i < rows; i++) l1->data[i] = 777;
+        getLabels_(a, cen, l1, (int)th); nsl = 0; getLabels(a, cen, l2);
+        VALUE("getLabels_", rows, th, "ties", uiv_eq(l1, l2));
+        DelMatrix(&a); DelMatrix(&cen); DelUIVector(&l1); DelUIVector(&l2);
+      }
+      /* finite operands whose products overflow, and missing-coded cells: the MT products must still equal the library's
+         own sequential products bit for bit (both skip such terms) */
+      if(rows >= 1 && (th <= 3 || th == maxth)){
+        matrix *m; dvector *v, *p, *q;
+        NewMatrix(&m, rows, 3); for(size_t i = 0; i < rows; i++){ m->data[i][0] = 1.0 + i; m->data[i][1] = (i % 3 == 1) ? 1e200 : -2.0; m->data[i][2] = (i % 4 == 2) ? MISSING : 0.5; }
+        NewDVector(&v, 3); v->data[0] = 2.0; v->data[1] = 1e200; v->data[2] = 3.0;
+        NewDVector(&p, rows); NewDVector(&q, rows);
+        vrt_force_nproc(th); MT_MatrixDVectorDotProduct(m, v, p); nsl = 0; vrt_force_nproc(1);
+        MatrixDVectorDotProduct(m, v, q);
+        VALUE("MT_MatrixDVectorDotProduct", rows, th, "overflow-missing", vec_eq(p, q));
+        DelDVector(&p); DelDVector(&q); DelDVector(&v);
+        matrix *mt; NewMatrix(&mt, 3, rows); MatrixTranspose(m, mt);
+        NewDVector(&v, 3); v->data[0] = 2.0; v->data[1] = 1e200; v->data[2] = 3.0;
+        NewDVector(&p, rows); NewDVector(&q, rows);
+        vrt_force_nproc(th); MT_DVectorMatrixDotProduct(mt, v, p); nsl = 0; vrt_force_nproc(1);
+        DVectorMatrixDotProduct(mt, v, q);
+        VALUE("MT_DVectorMatrixDotProduct", rows, th, "overflow-missing", vec_eq(p, q));
+        DelDVector(&p); DelDVector(&q); DelDVector(&v); DelMatrix(&mt); DelMatrix(&m);
+      }
       /* ---- sites 8-9 and users: MDC, KMeans++ (seeded), MaxDis, KMeans: results independent of the thread count */
       if(rows >= 3 && rows <= 30 && (full || rows % 4 == 3) && th <= 8){
         matrix *a; NewMatrix(&a, rows, cols); fill_rand(a, &R);
